@@ -21,12 +21,22 @@ import (
 
 func compHook(seed uint64, perMille int) func(site int) {
 	var ctr atomic.Uint64
+	// A third of the trials concentrate on one yield point: it delays in 40 % of its visits whatever
+	// the general rate is, so that every site gets trials in which its window is held open often.
+	focus := -1
+	if h := core.Mix(seed ^ 0xf0c5); h%3 == 0 {
+		focus = int((h >> 8) % uint64(len(otter.VerifSiteNames())))
+	}
 	return func(site int) {
-		if perMille == 0 {
+		pm := perMille
+		if site == focus && pm < 400 {
+			pm = 400
+		}
+		if pm == 0 {
 			return
 		}
 		r := core.Mix(seed ^ ctr.Add(1))
-		if int(r%1000) >= perMille {
+		if int(r%1000) >= pm {
 			return
 		}
 		switch (r >> 20) % 3 {
